@@ -71,6 +71,12 @@ def cases(tier):
         out.append({"triggers": (t,), "imports": (), "name": "prog", "where": "dep"})
     for c in ("regex", "serde_json", "rand"):
         out.append({"triggers": (), "imports": ((c, "from_import"),), "name": "prog", "where": "dep"})
+    # two dependency modules, each with its own trigger / import, imported by the entry file in either order
+    firsts = [(("web_route",), ()), (("derive_serialize",), ()), (("async_fn",), ()), (("collections",), ())]
+    seconds = [((), (("regex", "from_import"),)), ((), (("rand", "from_import"),)), (("json_stringify_call",), ()), (("web_import_only",), ())]
+    for (t1, i1), (t2, i2) in itertools.product(firsts, seconds):
+        for order in ("ab", "ba"):
+            out.append({"triggers": t1 + t2, "imports": i1 + i2, "name": "prog", "where": "dep2", "parts": [{"triggers": t1, "imports": i1}, {"triggers": t2, "imports": i2}], "order": order})
     # project names
     for n in NAMES:
         out.append({"triggers": ("derive_serialize",), "imports": (("regex", "import_crate"),), "name": n})
@@ -89,6 +95,11 @@ def source(case):
     body = "".join(TRIGGERS[t][1] for t in case["triggers"]) or "    pass\n"
     if case.get("where") == "dep":
         return "from featlib import lib_entry\n\n\ndef main() -> None:\n    lib_entry()\n"
+    if case.get("where") == "dep2":
+        lines = ["from featlib import lib_entry", "from featlib2 import lib_entry2"]
+        if case["order"] == "ba":
+            lines.reverse()
+        return "\n".join(lines) + "\n\n\ndef main() -> None:\n    lib_entry()\n    lib_entry2()\n"
     return ("\n".join(imps) + "\n\n\n" if imps else "") + "\n\n".join(decls) + ("\n\n" if decls else "") + "def main() -> None:\n" + body
 
 
@@ -163,6 +174,11 @@ def generate(args):
     if case.get("where") == "dep":
         open(os.path.join(d, "featlib.incn"), "w", encoding="utf-8").write(dep_source(case))
         src = src + "\n# --- featlib.incn\n" + dep_source(case)
+    if case.get("where") == "dep2":
+        for fname, entry, part in (("featlib.incn", "lib_entry", case["parts"][0]), ("featlib2.incn", "lib_entry2", case["parts"][1])):
+            text = source({**part, "name": "prog", "where": "main"}).replace("def main() -> None:", f"pub def {entry}() -> None:")
+            open(os.path.join(d, fname), "w", encoding="utf-8").write(text)
+            src = src + f"\n# --- {fname}\n" + text
     env = {"PATH": FAKE + ":" + os.environ.get("PATH", ""), "HOME": os.environ.get("HOME", "/root"), "RUST_LOG": "off"}
     p = subprocess.run([common.INCAN, "--no-banner", "--color", "never", "build", name + ".incn", "out"], cwd=d, env=env, capture_output=True, text=True, timeout=120)
     files = {}
@@ -246,11 +262,11 @@ def run(tier):
         if not probs:
             sig_ok.add(sig)
         for kind, detail in probs:
-            key = f"{kind}|trig:{'+'.join(case['triggers']) or '-'}|imp:{'+'.join(c + '/' + f for c, f in case['imports']) or '-'}|name:{case['name'][:12]}" + ("|in-dependency-module" if case.get("where") == "dep" else "")
-            out.fail(key, {"case": {"triggers": list(case["triggers"]), "imports": [list(i) for i in case["imports"]], "name": case["name"], "where": case.get("where", "main")}, "source": src, "detail": detail, "cargo_toml": files.get("Cargo.toml")})
+            key = f"{kind}|trig:{'+'.join(case['triggers']) or '-'}|imp:{'+'.join(c + '/' + f for c, f in case['imports']) or '-'}|name:{case['name'][:12]}" + ("|in-dependency-module" if case.get("where") == "dep" else "") + (f"|two-dependency-modules:{case['order']}" if case.get("where") == "dep2" else "")
+            out.fail(key, {"case": {"triggers": list(case["triggers"]), "imports": [list(i) for i in case["imports"]], "name": case["name"], "where": case.get("where", "main"), "parts": case.get("parts"), "order": case.get("order")}, "source": src, "detail": detail, "cargo_toml": files.get("Cargo.toml")})
     # sufficiency: really build the subsets whose crates are available offline
     pipe.warm()
-    real = [c for c in cs if not c["imports"] and c["name"] == "prog" and c.get("where") != "dep" and len(c["triggers"]) <= (3 if tier == "thorough" else 1)]
+    real = [c for c in cs if not c["imports"] and c["name"] == "prog" and c.get("where") not in ("dep", "dep2") and len(c["triggers"]) <= (3 if tier == "thorough" else 1)]
     real += [c for c in cs if c["imports"] == (("serde_json", "import_crate"),)]
     rr = pipe.run_many([(i, {"prog.incn": source(c)}, {"run": False}) for i, c in enumerate(real)])
     n_real_ok = 0
@@ -267,7 +283,7 @@ def run(tier):
     cov = {
         "evaluations": len(cs) + len(real),
         "distinct_nontrivial": len(sig_ok),
-        "rule": "project generations: every subset of <= 2 (thorough <= 3) of 11 feature triggers (derive Serialize / Deserialize merged, stacked, on class; json_stringify; async; plain; web route; web import only), 8 cases with the trigger or rust:: import in a dependency module instead of the entry file, "
+        "rule": "project generations: every subset of <= 2 (thorough <= 3) of 11 feature triggers (derive Serialize / Deserialize merged, stacked, on class; json_stringify; async; plain; web route; web import only), 8 cases with the trigger or rust:: import in a dependency module instead of the entry file, 32 with two dependency modules (4 x 4 trigger / import pairs, imported in either order), "
         "every known-good crate in 4 import forms, crate pairs, std, crates also implied by a feature, an unknown crate in every form (must be refused), 11 project names; oracle on "
         "the files written by the real `incan build` (no-op cargo): TOML parses, package/bin name = file stem, every dependency pinned, declared crates = crates referenced by the "
         "generated Rust (token scan ignoring strings/comments) + {incan_stdlib, incan_derive}; plus real cargo builds of the registry-available subsets",
@@ -294,6 +310,9 @@ def replay(path):
     rec = json.load(open(path, encoding="utf-8"))
     c = rec["case"]
     case = {"triggers": tuple(c["case"]["triggers"]), "imports": tuple(tuple(i) for i in c["case"]["imports"]), "name": c["case"]["name"], "where": c["case"].get("where", "main")}
+    if c["case"].get("parts"):
+        case["parts"] = [{"triggers": tuple(p_["triggers"]), "imports": tuple(tuple(i) for i in p_["imports"])} for p_ in c["case"]["parts"]]
+        case["order"] = c["case"]["order"]
     if "unknown" in rec["key"] or "wildcard" in rec["key"]:
         case["expect_refused"] = True
     root = os.path.join(common.BUILD, "c15_replay")
